@@ -22,6 +22,28 @@ CHECKS["C18"] = {"technique": "loop-carried def-use analysis, polynomial normal 
 CHECKS["C19"] = {"technique": "typestate / constructor-reset agreement over the class's attribute stores, CFG path predicates (exactly-once, dominance, guarded-by), reaching definitions with kind inference",
   "text": "Every attribute stored outside __init__ is restored by reset() with the constructor's expression or rebuilt under the 'fresh' guard; step advances exactly once per path after the schedule test; the optimiser runs exactly on scheduled calls and is the only writer of the reused weights; reused calls read no other cached state; the weights are a torch tensor on all paths into weights @ matrix. The max_norm bound and solver convergence are not decided.",
   "note": "kinds inferred from construction forms (torch.* / np.* / .numpy()); cvxpy behaviour trusted"}
+PIPE = "trusted base: pipeline operator axioms (autograd.grad returns one optional gradient per input in order and has no .grad side effect; cat/stack/vstack/diag/vmap layout axioms; an aggregator's output inherits its input's column layout) and the home-grown resolver; numerical values are not decided"
+CHECKS["C01"] = {"technique": "abstract end-to-end interpretation of backward over symbolic key collections: stage order, order/layout tokens at every pack/zip/slice site, idiom recognition, single-pass-iterable typestate",
+  "text": "For all programs and argument lists at once (no input appears in the argument): on every non-empty returning path cotangents are ones diagonalised in the given order, every sweep differentiates exactly `tensors` w.r.t. exactly the inputs with paired cotangents, unused inputs become zeros, the aggregator is applied exactly once before any write to a matrix laid out over the inputs, each key gets the slice packed for it (pack/unpack orders coincide), and iterable parameters are materialised before traversal. Numerical values are not decided.",
+  "note": PIPE}
+CHECKS["C02"] = {"technique": "abstract end-to-end interpretation of mtl_backward (explicit and defaulted parameter lists): stage order, row/column order coherence, overlap check dominance, single-pass iterables",
+  "text": "Each task differentiates its own loss w.r.t. its own parameters + features and accumulates only its own parameters; per-task feature gradients are stacked along dim 0 in the order of the losses; the shared Jacobian uses exactly features and shared parameters; one aggregation after all sweeps; overlap rejected first. Numerical values are not decided.",
+  "note": PIPE}
+CHECKS["C05"] = {"technique": "closed-form (polynomial) evaluation of the constant weightings + single-contraction check of the combine step + the pipeline conditions of C01/C02",
+  "text": "Structural reduction of 'coincides with autograd' by linearity: Constant/Sum/Mean are exactly J -> w^T J with w = the configured vector / 1 / 1/m (no state, no value reads), cotangents are ones and one row per output scalar, the aggregator is applied exactly once to the united Jacobian. The numerical equality with torch.autograd's .grad is not decided.",
+  "note": OPS + "; " + PIPE}
+CHECKS["C06"] = {"technique": "ownership / effect analysis: who-may-write .grad (syntactic writers vs. observed abstract writes), forbidden autograd APIs, CFG path counting in the writer, freshness typing of stored values",
+  "text": "The only .grad writers are reached only with requested targets; existing .grad is added to in place, absent .grad gets a freshly allocated tensor; exactly one write per key; no other autograd side effect API is called; no in-place op on user tensors. Decided for all histories because no history appears in the argument.",
+  "note": PIPE + "; graphs without retain_grad() tensors (documented limitation)"}
+CHECKS["C13"] = {"technique": "interprocedural value-flow (origin) of retain_graph to every autograd.grad site through constructors, fields, partials, closures and defaults; sweep-order rule over the abstract execution",
+  "text": "Every autograd.grad site receives the caller's retain_graph unmodified or the literal True; the last sweep of each Jacobian carries the caller's flag and earlier ones True; single-sweep task gradients use the flag; create_graph never derives from it. What torch frees is trusted.",
+  "note": PIPE}
+CHECKS["C15"] = {"technique": "per-building-block order/layout coherence over the abstract runs (pack/zip/slice sites, prefix-sum and running-offset idioms, row-major reshapes)",
+  "text": "Layout/pairing clauses only: Grad/Jac pair outputs, cotangents and inputs from one ordered source with zero materialisation and prefix-sum column blocks; Init = ones; Diagonalize = one row per scalar in key order; Stack = dim 0 with zeros for absent keys; Aggregate = one aggregator call on the column-wise concatenation and each key its own slice. Numerical content is torch's and not decided.",
+  "note": PIPE}
+CHECKS["C20"] = {"technique": "checks-before-effects ordering over the abstract execution: rejection inventory, no write event on any rejection path, validation loops completed before the first write",
+  "text": "On every path ending in an argument-kind ValueError (and aggregator rejection in backward) no .grad write event precedes the raise; all requested parameter collections pass the expects-grad check in completed loops before the first write, so the position of an offending argument cannot matter.",
+  "note": PIPE}
 NA_PENDING = "check not built yet in this commit (planned, see DESIGN.md section 5)"
 NOT_APPLICABLE = {
  "C04": "Non-conflict is a numerical inequality on the outputs of a QP, a Frank-Wolfe loop and a conic solver with input-dependent allowances; no clause of it is visible in the shape of the code.",
